@@ -129,7 +129,11 @@ def hexv(F, v):
 
 
 # ---- replay driver ----------------------------------------------------------------------------------------------------
+EVALS = [0]
+
+
 def run_bin(binp, label, kv):
+    EVALS[0] += 1
     cmd = [binp, label] + [f"{k}={v}" for k, v in kv.items()]
     r = subprocess.run(cmd, capture_output=True, text=True, timeout=120)
     try:
@@ -195,6 +199,44 @@ def curve_probes(F, label, rnd):
         kv = dict(op='precomp_3', k=hex(k)); kv.update(pt_args(F, 'p', jac(F, P, None)))
         cases.append(('precomp_3', kv, ec_mul(F, k, P)))
     return cases
+
+
+def batch_probes(F, rnd):
+    """inputs of batch_normalization: every mix of identity / already normalized (Z = 1) / general Jacobian representatives, in every order"""
+    P1, P2, P3 = rand_point(F, rnd), rand_point(F, rnd), rand_point(F, rnd)
+    kinds = {'O': (None, None), 'N': (P1, None), 'J': (P2, F.rand(rnd)), 'K': (P3, F.rand(rnd)), 'M': (P3, None)}
+    shapes = ['', 'O', 'N', 'J', 'OO', 'NJ', 'JN', 'OJ', 'JO', 'ON', 'NO', 'JK', 'NM', 'JNK', 'NJO', 'ONJ', 'JON', 'NJM', 'JKN', 'OJNKM', 'NOJOM', 'MJKNO', 'JNKOM']
+    cases = []
+    for sh in shapes:
+        kv = dict(op='batch_norm', n=str(len(sh)))
+        exp = []
+        for i, ch in enumerate(sh):
+            A, la = kinds[ch]
+            kv.update(pt_args(F, f'p{i}', jac(F, A, la)))
+            exp.append(A)
+        cases.append((kv, exp))
+    return cases
+
+
+def refute_batch(binp):
+    rnd = random.Random(17)
+    for F, label in ((F1, 'G1_op'), (F2, 'G2_op')):
+        w = 2 if F is F1 else 4
+        for kv, exp in batch_probes(F, rnd):
+            out, cmd = run_bin(binp, label, kv)
+            if 'error' in out:
+                continue
+            o = out.get('out', [])
+            act, i = [], 0
+            while i < len(o):
+                if o[i] in ('inf', 'notnorm'):
+                    act.append(None if o[i] == 'inf' else 'not normalized'); i += 1
+                else:
+                    vals = [int(x, 16) for x in o[i:i + w]]
+                    act.append((vals[0], vals[1]) if F is F1 else ((vals[0], vals[1]), (vals[2], vals[3]))); i += w
+            if act != exp:
+                return dict(function=f"{label}:batch_normalization", input=kv, actual=str(act), expected=str(exp), command=cmd)
+    return None
 
 
 SCALAR_OPS = ('mul_assign', 'affine_mul', 'precomp_256', 'precomp_3', 'wnaf_sb', 'wnaf_bs', 'wnaf_staged')
@@ -497,6 +539,139 @@ def refute_fq2(binp):
     return None
 
 
+# ---- message expansion and field hashing (C13 / C06): RFC 9380 section 5.3 with hashlib ---------------------------------------
+def ref_expand(variant, msg, dst, n):
+    import hashlib
+    if variant.startswith('xof'):
+        H = hashlib.shake_128 if variant == 'xof128' else hashlib.shake_256
+        return H(msg + n.to_bytes(2, 'big') + dst + bytes([len(dst)])).digest(n)
+    H = hashlib.sha256 if variant == 'xmd256' else hashlib.sha512
+    b, sblk = H().digest_size, H().block_size
+    ell = (n + b - 1) // b
+    if ell > 255:
+        return 'panic'
+    dp = dst + bytes([len(dst)])
+    b0 = H(bytes(sblk) + msg + n.to_bytes(2, 'big') + b'\0' + dp).digest()
+    bs = [H(b0 + b'\1' + dp).digest()]
+    for i in range(2, ell + 1):
+        bs.append(H(bytes(x ^ y for x, y in zip(b0, bs[-1])) + bytes([i]) + dp).digest())
+    return b''.join(bs)[:n]
+
+
+def refute_expand(binp):
+    rnd = random.Random(19)
+    msgs = [b'', b'abc', rnd.randbytes(200)]
+    dsts = [b'', b'Q', b'QUUX-V01-CS02-with-expander', rnd.randbytes(254), rnd.randbytes(255), b'\xff' * 255]
+    for variant, lens in (('xmd256', (0, 1, 31, 32, 33, 64, 128, 255 * 32 - 1, 255 * 32, 255 * 32 + 1, 9000)), ('xmd512', (1, 64, 65, 96, 255 * 64, 255 * 64 + 1)),
+                          ('xof128', (0, 1, 32, 168, 169, 500, 8160)), ('xof256', (1, 48, 136, 137, 300))):
+        for n in lens:
+            for mi, msg in enumerate(msgs):
+                for di, dst in enumerate(dsts):
+                    if (mi + di) % 2 and n > 200 and len(dst) < 254:      # thin out the long outputs, keep every tag length
+                        continue
+                    out, cmd = run_bin(binp, 'expand', dict(variant=variant, msg=msg.hex(), dst=dst.hex(), len=str(n)))
+                    if 'error' in out:
+                        continue
+                    exp = ref_expand(variant, msg, dst, n)
+                    exp = exp if exp == 'panic' else exp.hex()
+                    if out.get('tag') != exp:
+                        return dict(function=f"expand_message:{variant}", input=dict(msg=msg.hex(), dst=dst.hex(), len=n), actual=out.get('tag')[:200], expected=exp[:200], command=cmd[:600])
+    # hash_to_field: consecutive blocks, big-endian, reduced; Fq2 real part first
+    for field, L, mod, m in (('fq', 64, Q, 1), ('fr', 48, R, 1), ('fq2', 64, Q, 2)):
+        for variant in ('xmd256', 'xof128'):
+            for count in (0, 1, 2, 3, 5):
+                for msg in msgs[:2]:
+                    for dst in (dsts[2], dsts[4]):
+                        out, cmd = run_bin(binp, 'hash_to_field', dict(field=field, variant=variant, msg=msg.hex(), dst=dst.hex(), count=str(count)))
+                        if 'error' in out:
+                            continue
+                        okm = ref_expand(variant, msg, dst, count * m * L)
+                        exp = [hex(int.from_bytes(okm[L * j:L * (j + 1)], 'big') % mod) for j in range(count * m)]
+                        act = [hex(int(x, 16)) for x in out.get('out', [])]
+                        if act != exp:
+                            return dict(function=f"hash_to_field:{field}:{variant}", input=dict(msg=msg.hex(), dst=dst.hex(), count=count), actual=str(act)[:300], expected=str(exp)[:300], command=cmd[:600])
+    return None
+
+
+# ---- multi-scalar multiplication (C10) ----------------------------------------------------------------------------------------------
+def refute_msm(binp):
+    rnd = random.Random(23)
+    for F, label in ((F1, 'msm_g1'), (F2, 'msm_g2')):
+        P, Qp, S = rand_point(F, rnd), rand_point(F, rnd), rand_point(F, rnd)
+        top = (1 << 255) - 1
+        ks = [0, 1, 2, top, 1 << 254, (1 << 64) - 1, 1 << 64, (1 << 63) | (1 << 127) | (1 << 191), R - 1, R, rnd.randrange(1 << 255), rnd.randrange(1 << 255), 0x8000000000000001 << 60, (1 << 255) - (1 << 128)]
+        shapes = [([], []), ([P], [ks[10]]), ([P], [0]), ([None], [ks[10]]), ([P, P], [ks[10], ks[11]]), ([P, ec_neg(F, P)], [ks[10], ks[10]]), ([P, ec_neg(F, P)], [5, 5]),
+                  ([P, P, P], [1, 1, 1]), ([P, Qp, S], [ks[3], ks[4], ks[12]]), ([P, Qp, None, S], [ks[5], ks[6], ks[10], ks[7]]), ([P, Qp, S], [ks[10], ks[11]]), ([P, Qp], [ks[8], ks[9], ks[10]]),
+                  ([P, Qp, S, P, Qp, S, ec_neg(F, S)], [ks[13], 3, ks[11], ks[1], ks[2], 7, 7]), ([P] * 9, [ks[i] for i in (1, 2, 3, 4, 5, 6, 7, 10, 11)])]
+        ops = ['default', 'precomp'] + [str(w) for w in ((1, 2, 3, 4, 5, 7, 8, 11, 13, 16, 17, 20) if F is F1 else (1, 3, 8, 16, 17))]
+        for si, (pts, sc) in enumerate(shapes):
+            n = min(len(pts), len(sc))
+            exp = None
+            for i in range(n):
+                exp = ec_add(F, exp, ec_mul(F, sc[i], pts[i]))
+            for op in ops:
+                if op in ('17', '20') and si not in (4, 8, 12):          # the large windows are slow: three shapes
+                    continue
+                kv = dict(op=op, np=str(len(pts)), nk=str(len(sc)))
+                for i, A in enumerate(pts):
+                    kv.update(pt_args(F, f'p{i}', jac(F, A, None)))
+                for i, k in enumerate(sc):
+                    kv[f'k{i}'] = hex(k)
+                out, cmd = run_bin(binp, label, kv)
+                if 'error' in out:
+                    continue
+                act = 'panic' if out.get('tag') == 'panic' else out_point(F, out)
+                if act != exp:
+                    return dict(function=f"{label}:sum_of_products:{op}", input=kv, actual=str(act), expected=str(exp), command=cmd[:2000])
+    return None
+
+
+def refute_scalar_paths(binp):
+    """wNAF contexts with reuse histories, precomp_3 (C02 stand-in): the subset of the curve probes for functions that are not under contract"""
+    rnd = random.Random(7)
+    for F, label in ((F1, 'G1_op'), (F2, 'G2_op')):
+        for op, kv, exp in curve_probes(F, label, rnd):
+            if op not in ('precomp_3', 'wnaf_sb', 'wnaf_bs', 'wnaf_staged'):
+                continue
+            out, cmd = run_bin(binp, label, kv)
+            if 'error' in out:
+                continue
+            act = out_point(F, out)
+            if act != exp:
+                return dict(function=f"{label}:{op}", input=kv, actual=str(act), expected=str(exp), command=cmd)
+    return None
+
+
+# ---- stand-ins: functions that no contract reaches are driven on structured inputs against the independent reference on EVERY run.
+# They are tests, not proofs: reported separately in the evidence (coverage.stand_ins), never counted as obligations.
+STANDINS = {
+    'batch_normalization': (refute_batch, "CurveProjective::batch_normalization (iterator adaptor chains: outside the Verus subset): every mix and order of identity / normalized / general representatives, up to 5 points"),
+    'wnaf_contexts_precomp_3': (refute_scalar_paths, "Wnaf context methods with reuse histories (type-state wrappers over AsRef/AsMut) and precomp_3 / mul_precomp_3: structured scalars (0, 1, word and chunk boundaries, r-1, r, 2^255-1), both staging orders, table sizes for 1 / 5 / 100000 scalars"),
+    'expand_message_hash_to_field': (refute_expand, "ExpandMsgXmd / ExpandMsgXof / hash_to_field (generic Digest chains and closures: outside the Verus subset) against hashlib: tag lengths 0, 1, 27, 254, 255; output lengths around every block boundary and the 255-block limit (abort expected beyond it); element counts 0..5"),
+    'sum_of_products': (refute_msm, "sum_of_products / sum_of_products_pippinger (windows 1..20) / sum_of_products_precomp_256: empty input, duplicates, inverse pairs, identity points, zero scalars, mismatched lengths, scalars with bits at word boundaries and 2^255-1"),
+    'encoders_api': (lambda binp: refute_encode(binp), "into_compressed / into_uncompressed through the public API on random points, both roots, small x, y in Fq / purely imaginary, the identity, with non-trivial Z"),
+}
+
+
+def run_standins(names):
+    """[(name, description, evaluations, failure or None)] - failure is a dict like run()'s"""
+    binp, err = rp.build_replay()
+    res = []
+    for nme in names:
+        fn, desc = STANDINS[nme]
+        if not binp:
+            res.append((nme, desc, 0, None, 'replay binary could not be built: ' + err[-300:]))
+            continue
+        e0 = EVALS[0]
+        try:
+            f = fn(binp)
+            note = ''
+        except Exception as ex:          # a stand-in never turns into an alarm by itself
+            f, note = None, f'stand-in aborted: {type(ex).__name__}: {ex}'
+        res.append((nme, desc, EVALS[0] - e0, f, note))
+    return res
+
+
 def run(prop):
     """a concrete failing input of the real code for this property, or None"""
     binp, err = rp.build_replay()
@@ -506,6 +681,9 @@ def run(prop):
     try:
         if prop in ('C01', 'C02', 'C10', 'C14', 'C07'):
             r = refute_curve(binp, want)
+            if r: return r
+        if prop == 'C01':
+            r = refute_batch(binp)
             if r: return r
         if prop in ('C04', 'C05', 'C19', 'C07'):
             r = refute_codec(binp, want)
